@@ -42,6 +42,7 @@ def backends():
 def check_marks(items, text, backend, li, what):
     n = len(text)
     prev = -1
+    prev_end = -1
     for idx, t in enumerate(items):
         s, e = t.start_mark, t.end_mark
         if s is None or e is None:
@@ -51,6 +52,11 @@ def check_marks(items, text, backend, li, what):
         if s.index < prev:
             return "%s %d (%s): start %d moves backwards (previous start %d)" % (what, idx, type(t).__name__, s.index, prev)
         prev = s.index
+        # the flattened sequence start, end, start, end, ... never moves backwards either: an item starts where or after the
+        # previous one ended (zero-width items sit between their neighbours)
+        if s.index < prev_end:
+            return "%s %d (%s): overlap: starts at %d before the previous %s ended (%d)" % (what, idx, type(t).__name__, s.index, what, prev_end)
+        prev_end = e.index
         if backend == "py":
             for m, nm in ((s, "start"), (e, "end")):
                 exp = li.line_col(m.index)
